@@ -14,7 +14,7 @@ RULE = ("cases of C03 (dyadic stream, every fourth case arbitrary doubles compar
         "cells exactly; one-, two- and three-axis dims); for every dimension d and every value v in "
         "0..extent plus one value outside the data: d is replaced by a copy shifted to common v (and, separately, "
         "re-normalised with shift_common() afterwards); every aggregate of C03 is compared with the unshifted cube over "
-        "the same explicit shape: missing cells exactly, values exactly. Non-trivial = the shifted dimension has rows; "
+        "the same explicit shape (also for a cube object built BEFORE its dimension is re-encoded in place): missing cells exactly, values exactly. Non-trivial = the shifted dimension has rows; "
         "distinct by (case, dimension, v, aggregate)")
 ASSUMPTIONS = ["explicit interacting shape covering both commons (the property's 'value outside the data' needs a larger extent)"]
 
@@ -82,6 +82,30 @@ def check(ctx, case, reqs, pend):
                         pos = tuple(int(x) for x in pos)
                         ctx.oracle_fail("%s: after %s on dimension %d cell %s = %r, was %r" % (func, name, a, pos, sv[pos], bv[pos]),
                                         desc, cls="C05-differs")
+            # a long-lived cube: built (and used) first, THEN one of its dimensions is re-encoded in place
+            if len(ix.shape) <= 2:
+                live = [x.copy() for x in idxs]
+                try:
+                    cube = ccube(live, interacting_shape=tuple(shape))
+                    A.call(cube, "count", case, ("pair", 0))
+                    live[a].shift_common(v)
+                    for func in A.FUNCS:
+                        bv, bm = A.call(ccube(idxs, interacting_shape=tuple(shape)), func, case, ("pair", 0))
+                        sv, sm = A.call(cube, func, case, ("pair", 0))
+                        ctx.evaluations += 1
+                        ok = sv.shape == bv.shape and np.array_equal(sm, bm) and (
+                            np.all(np.abs(sv[~bm] - bv[~bm]) <= 1e-9 * A.grand_total(case, func)) if case["general"]
+                            else np.array_equal(sv[~bm], bv[~bm]))
+                        if not ok:
+                            ctx.oracle_fail("%s: a cube built BEFORE dimension %d was re-encoded in place with shift_common(%d) "
+                                            "reports different cells afterwards" % (func, a, v),
+                                            A.small_desc(case, {"func": func, "dim": a, "v": v, "shape": shape, "live_cube": True}),
+                                            cls="C05-differs")
+                            break
+                    ctx.hit("live_cube_reencoded")
+                except Exception as e:
+                    ctx.oracle_fail("live cube after shift_common(%d) raised %s: %s" % (v, type(e).__name__, str(e)[:60]),
+                                    A.small_desc(case, {"dim": a, "v": v}), cls="C05-raises")
             if I.snapshot(ix) != snap:
                 ctx.oracle_fail("copy().shift_common() changed the original index", A.small_desc(case), cls="C05-aliasing")
             # model: the count cube of the shifted dims (one-axis only)
